@@ -219,6 +219,21 @@ class Lib:
             f = v.f
             probe = f(z3.Int('i!probe'))
             from .core import MaybeNan
+            if isinstance(probe, (list, tuple)) and probe and all(is_sym(x) or isinstance(x, (int, float)) for x in probe):
+                # list of symbolic length whose elements are rows of a fixed width: a 2-d array
+                w = len(probe)
+                dt = dtype or self._common_dtype(list(probe))
+
+                def cell(ix, f=f, w=w):
+                    row = f(ix[0])
+                    j = simp(ix[1])
+                    if isinstance(j, int):
+                        return row[j]
+                    e = row[w - 1]
+                    for k in range(w - 2, -1, -1):
+                        e = ite(to_z3(j) == k, row[k], e)
+                    return e
+                return Arr((v.n, w), cell, dt)
             if isinstance(probe, MaybeNan) or (isinstance(probe, Opaque) and getattr(probe, 'is_nan', False)):
                 # list of floats some of which may be NaN: value array + NaN flag
                 a = Arr((v.n,), lambda ix: MaybeNan.of(f(ix[0])).val, 'float64')
